@@ -85,6 +85,8 @@ func c09Operand(k int) any {
 	}
 }
 
+type c09Flag bool
+
 type c09Drop struct{ v any }
 
 func (d c09Drop) ToLiquid() any { return d.v }
@@ -146,6 +148,11 @@ func VerifC09Contains() {
 		k := nd.StringFrom(1, "kjz")
 		got := c09Bool("m contains p", map[string]any{"m": map[string]any{"k": 1, "j": nil}, "p": k})
 		nd.Assert(got == (k == "k" || k == "j"), "contains-map-key")
+		// a key is contained only as the value it is: an integer is not the character with that code
+		// point, a float not the integer it truncates to
+		nd.Assert(!c09Bool("m contains p", map[string]any{"m": map[string]any{"A": 1, "k": 2}, "p": nd.IntIn(60, 70)}), "map-contains-no-converted-key")
+		nd.Assert(!c09Bool("m contains p", map[string]any{"m": map[int]any{1: "x"}, "p": 1.5}), "int-map-contains-no-truncated-float")
+		nd.Assert(c09Bool("m contains p", map[string]any{"m": map[int]any{1: "x"}, "p": 1}), "int-map-contains-int-key")
 	case 3: // other receivers never contain anything and never fail
 		v := c09Operand(nd.Choice(c09OpKinds))
 		_, _ = c09Eval("x contains v", map[string]any{"x": nil, "v": v})
@@ -170,13 +177,30 @@ func VerifC09AndOr() {
 			return nd.String(nd.Choice(2)), true
 		case 5:
 			return []any{}, true
+		case 7:
+			return []string(nil), true // an empty collection, not nil
+		case 8:
+			return map[string]any(nil), true
+		case 9:
+			return map[string]any{}, true
+		case 10:
+			return 0.0, true
+		case 11:
+			return c09Drop{nil}, false
+		case 12:
+			return c09Drop{false}, false
+		case 13:
+			return c09Drop{0}, true
+		case 14:
+			b := nd.Bool()
+			return c09Flag(b), b
 		default:
 			b := nd.Bool()
 			return b, b
 		}
 	}
-	a, ta := val(nd.Choice(7))
-	b, tb := val(nd.Choice(7))
+	a, ta := val(nd.Choice(15))
+	b, tb := val(nd.Choice(15))
 	c, tc := val(nd.Choice(3))
 	bind := map[string]any{"a": a, "b": b, "c": c}
 	nd.Assert(c09Bool("a and b", bind) == (ta && tb), "and-truth-table")
